@@ -1,7 +1,7 @@
 import Clemens.Proofs.BoardViews
 /-
 C10: `MakeMove` keeps the board array and the bitboards consistent.  `makeMove` is cut into its
-stages (`makeMove_eq` is by `rfl`), each stage is shown to preserve `boardAgrees` and its effect on
+stages (`makeMove_eq_B` is by `rfl`), each stage is shown to preserve `boardAgrees` and its effect on
 the board array is recorded.
 -/
 namespace Clemens
@@ -47,7 +47,7 @@ def mmFinish (K : Keys) (p : Pos) (reset : Bool) : Pos :=
 theorem opt_ite_bind {α β : Type} {c : Prop} [Decidable c] (x y : Option α) (f : α → Option β) :
     (if c then x else y) >>= f = if c then x >>= f else y >>= f := by split <;> rfl
 
-theorem makeMove_eq (K : Keys) (p : Pos) (m : Move) : makeMove K p m = (do
+theorem makeMove_eq_B (K : Keys) (p : Pos) (m : Move) : makeMove K p m = (do
     let p0 := mmClearEp K p
     let (p1, reset) ← mmCapture K p0 m.tgt
     let p2 := touchSquare K (touchSquare K p1 m.src) m.tgt
@@ -179,7 +179,7 @@ theorem makeMove_stages (K : Keys) (p q : Pos) (m : Move) (h : makeMove K p m = 
     (ha : boardAgrees p) : ∃ p4 p5 r, boardAgrees p4 ∧
       (∀ s, s ≠ m.tgt → p4.at s = if s = m.src then 0 else p.at s) ∧
       mmSpecial K p4 m = some p5 ∧ q = mmFinish K p5 r := by
-  rw [makeMove_eq] at h
+  rw [makeMove_eq_B] at h
   simp only [bind, pure] at h
   have e0 := mmClearEp_bb K p
   have a0 : boardAgrees (mmClearEp K p) := boardAgrees_congr e0.1 e0.2 ha
